@@ -6,6 +6,40 @@
  * alloc->blocksize octets, like the blocks of the allocator stub.
  */
 
+#if VERIF_IS_NATIVE
+/* Native replay runs the REAL emit / receive path: the rest of the library is
+ * compiled into the driver (the proof units replace it by contracts). */
+#include <byte-buffer.c>
+#include <endpoints/core.c>
+#include <endpoints/trivial.c>
+#include <endpoints/buffer.c>
+#include <variable-length-integer.c>
+#include <length-prefix.c>
+#include <rfc1055.c>
+#ifdef RPP_UNIT_REGP
+#ifndef RPP_UNIT_SINK
+#include <endpoints/continuable-sink.c>
+#endif
+#include <allocator.c>
+#endif
+/* endpoints of the instance: a sink that swallows everything, a source that
+ * delivers the octets of a replay / random input and then fails */
+static const unsigned char *nat_stream; static size_t nat_len, nat_pos;
+static ssize_t nat_sink(void *d, const void *b, size_t n) { (void)d; (void)b; return (ssize_t)n; }
+static ssize_t nat_source(void *d, void *b, size_t n)
+{
+  (void)d;
+  if (nat_pos >= nat_len) return -EIO;
+  if (n > nat_len - nat_pos) n = nat_len - nat_pos;
+  memcpy(b, nat_stream + nat_pos, n); nat_pos += n;
+  return (ssize_t)n;
+}
+#define RPP_NATIVE_ENDPOINTS(p) do { chunk_sink_init(&(p).ep.sink, nat_sink, NULL); \
+  chunk_source_init(&(p).ep.source, nat_source, NULL); } while (0)
+#else
+#define RPP_NATIVE_ENDPOINTS(p) do { } while (0)
+#endif
+
 /* ---- ghost state ---------------------------------------------------------- */
 #ifndef REGP_TX_GHOSTS_DEFINED
 #define REGP_TX_GHOSTS_DEFINED
@@ -34,6 +68,16 @@ const uint16_t *g_crcT;   /* ghost checksum trace of C16, see RPP_DEC_FRAME_CAP 
 #define RPP_MAKE_TRACE()
 #endif
 
+/* native random search draws unconstrained values: fold a value that is
+ * outside the input domain into it (identity on every value of the domain, so
+ * extracted counterexamples replay unchanged) */
+#if VERIF_IS_NATIVE
+#define RPP_FOLD(var, lo, hi) do { if ((var) < (lo) || (var) > (hi)) \
+  (var) = (lo) + (__typeof__(var))((unsigned long long)(var) % ((unsigned long long)(hi) - (unsigned long long)(lo) + 1u)); } while (0)
+#else
+#define RPP_FOLD(var, lo, hi) do { } while (0)
+#endif
+
 /* hooks for case splits of a target (defines in targets/*.json) */
 #ifndef RPP_PIN_ALLOC
 #define RPP_PIN_ALLOC
@@ -50,6 +94,7 @@ const uint16_t *g_crcT;   /* ghost checksum trace of C16, see RPP_DEC_FRAME_CAP 
  * above sizeof(RPFrame) */
 #define RPP_MAKE_ALLOC() \
   IN(int, in_altype) IN(size_t, in_blocksize) \
+  RPP_FOLD(in_altype, 0, 1); RPP_FOLD(in_blocksize, sizeof(RPFrame) + 1u, (size_t)RPP_BSMAX); \
   ASSUME(in_altype == UFW_ALLOC_GENERIC || in_altype == UFW_ALLOC_SLAB); \
   ASSUME(in_blocksize > sizeof(RPFrame) && in_blocksize <= RPP_BSMAX); RPP_PIN_ALLOC \
   BlockAllocator al; \
@@ -63,6 +108,7 @@ const uint16_t *g_crcT;   /* ghost checksum trace of C16, see RPP_DEC_FRAME_CAP 
 #define RPP_MAKE_P() \
   RPP_MAKE_ALLOC() \
   IN(int, in_memtype) IN(int, in_eptype) IN(uint16_t, in_session) \
+  RPP_FOLD(in_memtype, 0, 1); RPP_FOLD(in_eptype, 0, 1); \
   ASSUME(in_memtype == RP_MEMTYPE_8 || in_memtype == RP_MEMTYPE_16); \
   ASSUME(in_eptype == RP_EP_SERIAL || in_eptype == RP_EP_TCP); RPP_PIN_P \
   RegP p; \
@@ -71,7 +117,8 @@ const uint16_t *g_crcT;   /* ghost checksum trace of C16, see RPP_DEC_FRAME_CAP 
   else { p.memory.access.m8.read = st_be_read8; p.memory.access.m8.write = st_be_write8; } \
   p.session.sequence = in_session; \
   p.ep.type = (RPEndpointType)in_eptype; \
-  p.alloc = &al;
+  p.alloc = &al; \
+  RPP_NATIVE_ENDPOINTS(p);
 
 /* a frame structure with arbitrary header fields (named for replay) */
 #define RPP_MAKE_FRAME_FIELDS(f) \
@@ -461,6 +508,14 @@ void h_regp_recv(void)
   RPP_COUNTERS()
   g_al_allocs = 0; g_al_live = 0; g_al_frees = 0;
   RPP_MAKE_TRACE()
+#if VERIF_IS_NATIVE
+  /* the proof abstracts the decoders; natively the real ones run on a stream */
+  IN(size_t, in_streamlen)
+  RPP_FOLD(in_streamlen, 0, 4 * (size_t)RPP_BSMAX);
+  ASSUME(in_streamlen <= 4 * RPP_BSMAX);
+  IN_MEM(in_stream, in_streamlen)
+  nat_stream = in_stream; nat_len = in_streamlen; nat_pos = 0;
+#endif
   RPMaybeFrame mf;
   regp_recv(&p, &mf);
   VERIF_CANARY();
